@@ -112,14 +112,18 @@ def fill_scales_for_dyadic_pyramid(info, target_chunk_size=64,
         # Ensure that the smallest chunk size is 1 for extremely anisotropic
         # datasets (i.e. reduce the anisotropy of chunk_size)
         excess_anisotropy = sum_anisotropy_factors - 3 * target_chunk_exponent
-        if excess_anisotropy > 0:
+        # (a factor that is clamped at zero absorbs less than its share of the
+        # reduction, so the reduction may have to be repeated)
+        while excess_anisotropy > 0:
             anisotropy_reduction = ceil_div(excess_anisotropy,
                                             sum(1 for f in anisotropy_factors
                                                 if f != 0))
             anisotropy_factors = [max(f - anisotropy_reduction, 0)
                                   for f in anisotropy_factors]
             sum_anisotropy_factors = sum(anisotropy_factors)
-            assert sum_anisotropy_factors <= 3 * target_chunk_exponent
+            excess_anisotropy = (sum_anisotropy_factors
+                                 - 3 * target_chunk_exponent)
+        assert sum_anisotropy_factors <= 3 * target_chunk_exponent
 
         base_chunk_exponent = (
             target_chunk_exponent - (sum_anisotropy_factors + 1) // 3)
